@@ -7,9 +7,12 @@
     verification never panics — it returns a boolean. The core of the proof is the no-overflow chain through the
     NTT-domain pipeline with a range tracked at every step (9q, 7q, 9q, 2^23, 2^23+8q, q, 8q, q, q, [0,q), [0,m)) and
     the totality of the hint decoder on adversarial counters and indices.
-    Key generation from any 32-byte seed likewise never panics (PKeygen.v). NOT yet a Coq theorem: the same for signing
-    (the checks run both builds on it, incl. volume). *)
-From DV Require Import Base MReduce MParams MSign MApi PTape PTotal PTotalClosed PKeygen.
+    Key generation from any 32-byte seed never panics (PKeygen.v), and signing with ANY secret-key bytes of the right length
+    (a fortiori any generated key) on any message in any mode never panics (PSignTotal.v): every intermediate stays in range
+    (largest product 81 q^2 < 2^31 q). Since no checked operation overflows, builds with and without overflow checking
+    compute the same values. The only arithmetic edge is the u16 counter L*nonce, reached after 2^16/L rejected attempts
+    (probability far below 2^-1000); the theorems hold for the model's attempt budget (SIGN_FUEL = 1000 <= 9361). *)
+From DV Require Import Base MReduce MParams MSign MApi PTape PTotal PTotalClosed PKeygen PSignTotal.
 
 Theorem C08_verify_never_panics : forall (P : params) (sig m pk : list Z),
   std P -> Forall is_byte sig -> Forall is_byte m -> Forall is_byte pk -> zlen pk = pPK P ->
@@ -45,6 +48,23 @@ Theorem C08_keygen_never_panics : forall (P : params) (xi pk0 sk0 tape : list Z)
   keypair P pk0 sk0 (Some xi) tape <> Panic.
 Proof. exact keypair_no_panic. Qed.
 Print Assumptions C08_keygen_never_panics.
+
+Theorem C08_signing_never_panics : forall (P : params) (sig msg sk : list Z) (rand : bool) (tape : list Z),
+  std P -> Forall is_byte sk -> zlen sk = pSK P -> Forall is_byte msg -> pSIG P <= zlen sig ->
+  Forall is_byte tape -> 64 <= zlen tape -> signature P sig msg sk rand tape <> Panic.
+Proof. exact signature_no_panic. Qed.
+Print Assumptions C08_signing_never_panics.
+
+Theorem C08_api_signers_never_panic : forall P : params, std P -> forall sk msg : list Z,
+  Forall is_byte sk -> zlen sk = pSK P -> Forall is_byte msg ->
+  dil_sign P sk msg <> Panic /\
+  forall (ctx : option (list Z)) (hedged : bool) (tape : list Z), ctx_is_bytes ctx -> tape_ok P hedged tape ->
+    ml_sign P sk msg ctx hedged tape <> Panic.
+Proof.
+  intros P HP sk msg Hsk Hl Hm; split; [exact (dil_sign_no_panic P HP sk msg Hsk Hl Hm)|].
+  intros ctx hedged tape Hc Ht. exact (ml_sign_no_panic P HP sk msg Hsk Hl ctx hedged tape Hm Hc Ht).
+Qed.
+Print Assumptions C08_api_signers_never_panic.
 
 (** the domain edges of the kernels are real (checked build panics one step outside the documented domain) *)
 Example C08_edges_are_real :
